@@ -35,6 +35,13 @@ def child(a):
     # VERIF_SEED only selects one of four pre-verified value palettes (never sampling): any integer is reduced mod 4
     seed = int(os.environ.get('VERIF_SEED', '0') or 0) % 4
     mod = importlib.import_module('checks.' + a['prop'])
+    # a check may ask for extra process-level settings of a flavour (e.g. the glibc malloc checker, which has to be
+    # preloaded): the child re-executes itself once with them
+    xe = getattr(mod, 'EXTRA_ENV', {}).get(flavour)
+    if xe and os.environ.get('VERIF_REEXEC') != '1' and all(os.path.exists(v) for k, v in xe.items() if k == 'LD_PRELOAD'):
+        env = dict(os.environ); env.update(xe); env['VERIF_REEXEC'] = '1'
+        sys.stdout.flush(); sys.stderr.flush()
+        os.execve(sys.executable, [sys.executable, '-m', 'mc.main'] + sys.argv[1:], env)
     res = {'flavours': list(getattr(mod, 'FLAVOURS', ('plain',))), 'flavour': flavour}
     if a['case']:
         case = json.load(open(a['case']))
